@@ -55,6 +55,12 @@ GRIDS = [
     {"cls": "cyl", "shape": [4, 4], "radius": [0.0, 4.0], "bounds_z": [0.0, 4.0], "periodic": [False, False]},
     {"cls": "cyl", "shape": [4, 4], "radius": [0.0, 4.0], "bounds_z": [0.0, 4.0], "periodic": [False, True]},
     {"cls": "cyl", "shape": [4, 4], "radius": [1.0, 5.0], "bounds_z": [0.0, 4.0], "periodic": [False, False]},
+    # tiny grids of different extent (SI lengths of nanometre-scale systems); added after the
+    # independently seeded change C01-2 (bounds rounded to 8 decimals in the grid's cache hash)
+    {"cls": "cart", "shape": [8], "bounds": [[0.0, 2e-9]], "periodic": [False]},
+    {"cls": "cart", "shape": [8], "bounds": [[0.0, 4e-9]], "periodic": [False]},
+    {"cls": "polar", "shape": [8], "radius": [0.0, 2e-9], "periodic": [False]},
+    {"cls": "polar", "shape": [8], "radius": [0.0, 4e-9], "periodic": [False]},
 ]
 
 # boundary-condition families for one side: (label, dict for py-pde)
@@ -175,6 +181,9 @@ def near_request(draw, prev, fams):
         g0 = GRIDS[prev["grid"]]
         similar = [i for i, g in enumerate(GRIDS) if i != prev["grid"] and g["shape"] == g0["shape"]
                    and axis_names(g) == axis_names(g0)]
+        twins = [i for i in similar if GRIDS[i]["cls"] == g0["cls"] and GRIDS[i]["periodic"] == g0["periodic"]]
+        if twins and draw(st.booleans()):
+            similar = twins  # same class and periodicity: only bounds / radii differ
         if similar:
             out["grid"] = draw(st.sampled_from(similar))
     if k == "bc" and prev["bc"].get("k") == "sides" and new["bc"].get("k") == "sides" and draw(st.booleans()):
